@@ -3,6 +3,8 @@ package checks
 import (
 	"encoding/json"
 	"fmt"
+	"github.com/inconshreveable/log15"
+	"github.com/zenon-network/go-zenon/common"
 	"math/rand"
 	"os"
 	"strings"
@@ -460,6 +462,12 @@ func DebugSyncSession(spec string, seed int64) string {
 		b.Steps = append(b.Steps, syncSessStep{Stage: p[0], Answer: p[1]})
 	}
 	node.Quiet()
+	if os.Getenv("VERIF_DEBUG") != "" {
+		h := log15.StreamHandler(os.Stderr, log15.LogfmtFormat())
+		common.ProtocolLogger.SetHandler(h)
+		common.DownloaderLogger.SetHandler(h)
+		common.FetcherLogger.SetHandler(h)
+	}
 	res, err := syncSessChild(syncSessArg{Behaviours: []syncSessBehaviour{b, b}, Seed: seed})
 	return fmt.Sprint(res, err)
 }
